@@ -260,6 +260,16 @@ func (tb *termBuilder) term(v ssa.Value, at ssa.Instruction) *Term {
 		}
 		return &Term{Op: "const", Name: x.Value.ExactString(), V: v}
 	case *ssa.Parameter:
+		// a parameter of a helper introduced by a refactoring (absent from the pinned tree) that has exactly one
+		// call site is the argument passed there: statements moved into such a helper keep their terms
+		if site := tb.P.uniqueSiteOfNewHelper(x.Parent()); site != nil && tb.depth < maxTermDepth-4 {
+			for i, p := range x.Parent().Params {
+				if p == x && i < len(site.Call.Args) {
+					inner := &termBuilder{P: tb.P, stack: map[ssa.Value]bool{}, depth: tb.depth + 1}
+					return inner.term(site.Call.Args[i], site)
+				}
+			}
+		}
 		return &Term{Op: "param", Name: pinnedParamName(x), V: v}
 	case *ssa.FreeVar:
 		return &Term{Op: "free", Name: pinnedFreeVarName(x), V: v}
